@@ -39,4 +39,5 @@ extern const hx_op ops_c16[];
 extern const hx_op ops_c15[];
 extern const hx_op ops_c03[];
 extern const hx_op ops_c04[];
+extern const hx_op ops_c09[];
 #endif
